@@ -58,7 +58,7 @@ def run(chk, args):
         "composite_pairs": {",".join(c["cols"]): len(c["pairs"]) for c in cases["composites"]},
         "composite_triples": {",".join(c["cols"]): len(c["triples"]) for c in cases["composites"]},
         "txmd": len(cases["txmd"]), "kvmd": len(cases["kvmd"]), "txheaders": len(cases["hdrs"]),
-        "exports": len(cases["exports"]), "rows": len(cases["rows"])}
+        "exports": len(cases["exports"]), "rows": len(cases["rows"]), "bounded_field_lengths": len(cases["bounds"])}
     for k, v in chk.cov["enumerated"].items():
         n = sum(v.values()) if isinstance(v, dict) else v
         if n == 0:
@@ -76,10 +76,33 @@ def run(chk, args):
                  "real-truncation:exported-truncated", "row-roundtrip", "row-roundtrip-through-sort-files", "index-eq:FLOAT"]:
         if not ctr.get(need):
             raise MachineryFault("harness did not reach %s (vacuous run)" % need)
+    # boundary lengths: per bounded field the maximal length must have gone through every level that applies, and
+    # max+1 must have been refused (vacuity guard; a broken round trip is reported by the harness as a violation and
+    # then legitimately lacks its counter, so the guard only applies when the harness reported nothing for that field)
+    levels = {"txmd.extra": ["pure", "store"], "txmd.extra+truncatedTxID": ["pure", "store"], "store.key": ["store"],
+              "store.value": ["store"], "store.entries": ["store"], "sql.varchar": ["sql"], "sql.blob": ["sql"],
+              "sql.varchar.indexed": ["sql"], "sql.blob.indexed": ["sql"], "doc.string.indexed": ["doc"]}
+    fields = sorted({b["field"] for b in cases["bounds"]})
+    if set(fields) != set(levels):
+        raise MachineryFault("bounded fields of Codec.tla %r differ from the ones the check knows %r" % (fields, sorted(levels)))
+    flagged = " ".join(v["sig"] for v in (r.get("violations") or []))
+    for f in fields:
+        if not ctr.get("boundary-commit:" + f):
+            raise MachineryFault("bounded field %s never reached a real store / engine" % f)
+        if (":%s:" % f) in flagged:
+            continue
+        for lv in levels[f]:
+            if not ctr.get("boundary-ok:%s:%s:max" % (lv, f)):
+                raise MachineryFault("maximal length of %s did not round-trip at level %s and nothing was reported (vacuous)" % (f, lv))
+        if not ctr.get("boundary-refused:%s:max+1" % f):
+            raise MachineryFault("length max+1 of %s was neither refused nor reported (vacuous)" % f)
+    chk.cov["boundary_roundtrips"] = {k: v for k, v in ctr.items() if k.startswith("boundary-")}
     vlib.absorb(chk, r)
     chk.cov["rule"] = ("cases = every pair of abstract values per SQL type (boundary classes; for VARCHAR/BLOB every string over a "
                        "3-symbol alphabet up to the declared length), every pair and a cube of triples of composite-key tuples, every "
-                       "field-presence combination of TxMetadata/KVMetadata/TxHeader/exported tx/SQL row, each concretised %d times "
+                       "field-presence combination of TxMetadata/KVMetadata/TxHeader/exported tx/SQL row, each concretised %d times; every "
+                       "length-bounded field at 0, 1, max-1, max, max+1 through Bytes/ReadFrom and a real store commit, header/tx/value/index "
+                       "read-back, export and replication (SQL and document values: insert, read by key and through the index) "
                        "(representatives + seeded random members); distinct_nontrivial = number of distinct concrete values, tuples, "
                        "header/metadata/export/row shapes executed on the real code (pairs and triples are not counted)" % variants)
     chk.cov["exhaustive"] = False
